@@ -19,6 +19,7 @@ EXTENDS EnumSem, TLC, Json, IOUtils
 GenN == atoi(IOEnv.GEN_N)
 Seed == atoi(IOEnv.GEN_SEED)
 DriveMatrixEvery == atoi(IOEnv.GEN_DRIVE_MATRIX_EVERY)   \* drive every k-th acceptable matrix enum in C++
+FieldsEvery == atoi(IOEnv.GEN_FIELDS_EVERY)               \* every k-th driven enum also gets enum fields
 
 MaxBitsChoices == <<0, 1, 7, 8, 9, 16, 31, 32, 33, 63, 64>>
 SignedChoices == <<"none", "true", "false">>
@@ -28,8 +29,8 @@ Str(s) == [k \in 1..Len(s) |-> s[k]]
 NamePool ==
     << <<"A", "A">>, <<"F", "O", "O", "_", "B", "A", "R">>, <<"F", "O", "O", "_", "_", "B", "A", "R">>,
        <<"A", "1", "_", "B", "2">>, <<"X", "_", "2", "Y">>, <<"T", "R", "A", "I", "L", "_">>,
-       <<"V", "2">>, <<"M", "U", "L", "T", "I", "_", "W", "O", "R", "D", "_", "E", "N", "U", "M">>,
-       <<"B", "3", "0", "0">>, <<"Q", "_">>, <<"Z", "_", "_", "9", "_", "A", "B", "C">>,
+       <<"V", "2", "X">>, <<"M", "U", "L", "T", "I", "_", "W", "O", "R", "D", "_", "E", "N", "U", "M">>,
+       <<"B", "_", "3", "0", "0">>, <<"Q", "_">>, <<"Z", "_", "_", "9", "_", "A", "B", "C">>,
        <<"F", "O", "O", "_", "B", "A", "R", "2">>, <<"F", "O", "O", "B", "A", "R">> >>
 NPool == Len(NamePool)     \* 13 (prime: every step 1..12 visits distinct names)
 
@@ -109,10 +110,11 @@ ValueProbes(E) ==
                       [lm |-> 9, d |-> 0], [lm |-> 10, d |-> 0] >>
     IN  Dedup(SelectSeq(cand, LAMBDA val : FitsUnderlying(E, ub, ValBV(val))))
 
-(* field widths: the whole maximum_bits and, when there is room, a narrower one *)
-FieldWidths(E) ==
+(* field widths: the whole maximum_bits and one narrower legal width that rotates with *)
+(* the enum's id, so that the population covers every width 1..63                       *)
+FieldWidths(E, k) ==
     LET mb == MaxBits(E)
-    IN  IF mb = 1 THEN <<1>> ELSE <<mb, IF mb > 8 THEN 8 ELSE (mb + 1) \div 2>>
+    IN  IF mb = 1 THEN <<1>> ELSE <<mb, 1 + ((k * 7) % (mb - 1))>>
 
 (***************************************************************************)
 (* Walk                                                                    *)
@@ -133,7 +135,7 @@ Emit(k) ==
                                   idents |-> IF drive THEN IdentProbes(E) ELSE <<>>,
                                   names |-> IF drive THEN NameProbes(E) ELSE <<>>,
                                   values |-> IF drive THEN ValueProbes(E) ELSE <<>>,
-                                  widths |-> IF drive THEN FieldWidths(E) ELSE <<>>]))
+                                  widths |-> IF drive /\ (k % FieldsEvery = 0) THEN FieldWidths(E, k) ELSE <<>>]))
                 /\ emitted' = emitted + 1
                 /\ driven' = driven + (IF drive THEN 1 ELSE 0)
            ELSE UNCHANGED <<emitted, driven>>
